@@ -35,6 +35,20 @@ pub fn run(prop: &str, req: &str, rep: &str, outfile: &str) {
         "C14" => oracle_c14(&reqs, &reps, &mut fails, &mut checked, &mut nontrivial),
         "C07" => oracle_c07(&reqs, &reps, &mut fails, &mut checked, &mut nontrivial),
         "C11" => oracle_c11(&reqs, &reps, &mut fails, &mut checked, &mut nontrivial),
+        "C01" | "C03" | "C04" | "C05" | "C06" | "C08" | "C10" | "C12" | "C20" => {
+            let mut w = crate::walk::Walk::new();
+            for (i, (q, r)) in reqs.iter().zip(reps.iter()).enumerate() {
+                w.step(i, q, r);
+            }
+            checked = w.checked;
+            nontrivial = w.nontrivial;
+            let tag = prop.to_string();
+            for t in w.out {
+                if t.tags.iter().any(|x| *x == tag) {
+                    fails.push(t.f);
+                }
+            }
+        }
         _ => {
             eprintln!("no oracle for {prop}");
             std::process::exit(2);
